@@ -55,6 +55,7 @@ type Exec struct {
 	trace     []int64
 	model     Model // satisfies the path condition (nil = unknown)
 	nBranches int
+	nChoices  int
 	nQueries  int
 	nUnknown  int
 	pathVars  []*Term
